@@ -9,9 +9,113 @@ def _stmts(body):
     return [ast.unparse(s) for s in body]
 
 
+def _clause(handler, lock_names, falls_to_next):
+    """one `except` clause of the worker loop as a Queue.Clause: (classes, report, underLock, exit)"""
+    if handler.type is None:
+        classes = []
+    elif isinstance(handler.type, ast.Tuple):
+        classes = [ast.unparse(e).split(".")[-1] for e in handler.type.elts]
+    else:
+        classes = [ast.unparse(handler.type).split(".")[-1]]
+
+    def is_report(n):
+        return isinstance(n, ast.Call) and isinstance(n.func, ast.Attribute) and n.func.attr == "print" and \
+            "error_interceptor" in ast.unparse(n.func.value)
+    reports = [n for st in handler.body for n in ast.walk(st) if is_report(n)]
+    locked = []
+    for st in handler.body:
+        for w in ast.walk(st):
+            if isinstance(w, ast.With) and any(ast.unparse(i.context_expr) in lock_names for i in w.items):
+                locked.extend(n for b in w.body for n in ast.walk(b) if is_report(n))
+    inner = [n for st in handler.body for n in ast.walk(st)]
+    if any(isinstance(n, ast.Raise) for n in inner):
+        exit_ = "escape"
+    elif any(isinstance(n, (ast.Break, ast.Return)) for n in inner):
+        exit_ = "leave"
+    elif falls_to_next or isinstance(handler.body[-1], ast.Continue):
+        exit_ = "next"
+    else:
+        exit_ = "escape"      # falls into the code after the `try` with a stale item
+    return "⟨[%s], %s, %s, .%s⟩" % (", ".join(lean_str(c) for c in classes), "true" if reports else "false",
+                                   "true" if reports and (falls_to_next or all(any(r is x for x in locked) for r in reports))
+                                   else "false", exit_)
+
+
+def _worker_loop(qw):
+    """`Handler._queued_writer` as a Queue.Loop (Queue/WorkerSyntax.lean); insensitive to the names of locals"""
+    loops = [n for n in qw.body if isinstance(n, ast.While)]
+    if len(loops) != 1:
+        raise Unsupported("_queued_writer: no single while loop")
+    loop = loops[0]
+    aliases = {}
+    for st in qw.body:
+        if isinstance(st, ast.Assign) and len(st.targets) == 1 and isinstance(st.targets[0], ast.Name):
+            aliases[st.targets[0].id] = ast.unparse(st.value)
+    lock_names = {"self._queue_lock"} | {k for k, v in aliases.items() if v == "self._queue_lock"}
+    setup_only = all(isinstance(st, (ast.Assign, ast.While)) or
+                     (isinstance(st, ast.Expr) and isinstance(st.value, ast.Constant)) for st in qw.body)
+    forever = (isinstance(loop.test, ast.Constant) and loop.test.value is True and not loop.orelse and
+               qw.body[-1] is loop and setup_only)
+    # the try around `<item> = <queue>.get()`
+    get_try, item = None, None
+    for st in loop.body:
+        if isinstance(st, ast.Try):
+            for n in st.body:
+                if isinstance(n, ast.Assign) and len(n.targets) == 1 and isinstance(n.targets[0], ast.Name) and \
+                        isinstance(n.value, ast.Call) and isinstance(n.value.func, ast.Attribute) and \
+                        n.value.func.attr == "get" and not n.value.args:
+                    get_try, item = st, n.targets[0].id
+    if get_try is None or loop.body[0] is not get_try or len(get_try.body) != 1 or get_try.orelse or get_try.finalbody:
+        raise Unsupported("_queued_writer: the loop does not start with `try: <item> = <queue>.get()`")
+    get_clauses = [_clause(h, lock_names, False) for h in get_try.handlers]
+    rest = loop.body[1:]
+
+    def ident_test(st, const):
+        return (isinstance(st, ast.If) and not st.orelse and isinstance(st.test, ast.Compare) and
+                len(st.test.ops) == 1 and isinstance(st.test.ops[0], ast.Is) and
+                isinstance(st.test.left, ast.Name) and st.test.left.id == item and
+                isinstance(st.test.comparators[0], ast.Constant) and st.test.comparators[0].value is const)
+    sentinel = len(rest) >= 1 and ident_test(rest[0], None) and len(rest[0].body) == 1 and isinstance(rest[0].body[0], ast.Break)
+    confirm = (len(rest) >= 2 and ident_test(rest[1], True) and isinstance(rest[1].body[-1], ast.Continue) and
+               any(isinstance(n, ast.Call) and isinstance(n.func, ast.Attribute) and n.func.attr == "set"
+                   for n in ast.walk(rest[1])) and
+               not any(isinstance(n, (ast.Break, ast.Return, ast.Raise)) for n in ast.walk(rest[1])))
+    # the try around `<sink>.write(<item>)` inside `with <queue lock>` as the last statement of the loop body
+    last = loop.body[-1]
+    write_try = None
+    if isinstance(last, ast.With) and any(ast.unparse(i.context_expr) in lock_names for i in last.items) and \
+            len(last.body) == 1 and isinstance(last.body[0], ast.Try):
+        t = last.body[0]
+        if len(t.body) == 1 and isinstance(t.body[0], ast.Expr) and isinstance(t.body[0].value, ast.Call) and \
+                isinstance(t.body[0].value.func, ast.Attribute) and t.body[0].value.func.attr == "write" and \
+                [ast.unparse(a) for a in t.body[0].value.args] == [item] and not t.orelse and not t.finalbody:
+            write_try = t
+    if write_try is None:
+        wt = [n for n in ast.walk(loop) if isinstance(n, ast.Try) and any(
+            isinstance(c, ast.Call) and isinstance(c.func, ast.Attribute) and c.func.attr == "write" for b in n.body for c in ast.walk(b))]
+        if len(wt) != 1:
+            raise Unsupported("_queued_writer: no single `try: <sink>.write(<item>)`")
+        write_clauses = [_clause(h, lock_names, False) for h in wt[0].handlers]
+        write_last = False
+    else:
+        write_clauses = [_clause(h, lock_names, True) for h in write_try.handlers]
+        write_last = len(rest) == 3
+    # every other break / return / raise of the loop
+    accounted = set()
+    for h in get_try.handlers + (write_try.handlers if write_try else []):
+        accounted.update(id(n) for n in ast.walk(h))
+    if sentinel:
+        accounted.update(id(n) for n in ast.walk(rest[0]))
+    others = [n for n in ast.walk(loop) if isinstance(n, (ast.Break, ast.Return, ast.Raise)) and id(n) not in accounted]
+    b = lambda x: "true" if x else "false"   # noqa: E731
+    return ("{ forever := %s, getClauses := [%s], sentinelLeaves := %s, confirmNext := %s,\n    writeClauses := [%s], "
+            "writeLast := %s, otherExits := %d }" % (b(forever), ", ".join(get_clauses), b(sentinel), b(confirm),
+                                                   ", ".join(write_clauses), b(write_last), len(others)))
+
+
 def generate():
     errors = []
-    body = "namespace Queue.ShapeGen\n\n"
+    body = "import LoguruModel.Queue.WorkerSyntax\nnamespace Queue.ShapeGen\n\n"
     try:
         tree, _ = parse_module("_handler.py")
         cq = find_func(tree, "complete_queue", cls="Handler")
@@ -61,6 +165,8 @@ def generate():
         body += "/-- the control-item tests of the worker loop, in order: (test, action) -/\n"
         body += "def workerTests : List (String × String) := [%s]\n\n" % ", ".join(
             "(%s, %s)" % (lean_str(a), lean_str(b)) for a, b in tests)
+        body += "/-- the exception structure of the worker loop (Queue/WorkerSyntax.lean, interpreted by Queue/Worker.lean) -/\n"
+        body += "def workerLoop : Queue.Loop :=\n  %s\n\n" % _worker_loop(qw)
         stop = find_func(tree, "stop", cls="Handler")
         w = [n for n in stop.body if isinstance(n, ast.With)]
         if len(w) != 1 or ast.unparse(w[0].items[0].context_expr) != "self._protected_lock()":
@@ -134,6 +240,69 @@ def generate():
             raise Unsupported("AsyncSink._complete_task does not await the task exactly once")
         body += "/-- `_complete_task` returns at once for a task that belongs to another event loop -/\n"
         body += "def asyncSkipsForeignLoop : Bool := %s\n\n" % ("true" if [k for _, k in order] == ["skip", "await"] else "false")
+        # what a child inherits by pickling (Handler.__getstate__ / __setstate__): which attributes are blanked, which
+        # are re-created afresh in the child - everything else (queue, confirmation event + lock, owner pid, _stopped)
+        # travels as it is, i.e. is shared / copied, which is what `Queue.step`'s per-process part assumes
+        gs = find_func(tree, "__getstate__", cls="Handler")
+        ss = find_func(tree, "__setstate__", cls="Handler")
+        svar = [st.targets[0].id for st in gs.body if isinstance(st, ast.Assign) and len(st.targets) == 1 and
+                isinstance(st.targets[0], ast.Name) and ast.unparse(st.value) == "self.__dict__.copy()"]
+        rets = [n for n in ast.walk(gs) if isinstance(n, ast.Return)]
+        if len(svar) != 1 or len(rets) != 1 or ast.unparse(rets[0].value) != svar[0]:
+            raise Unsupported("Handler.__getstate__ does not return a copy of self.__dict__")
+        blanked = []
+
+        def scan(stmts, cond):
+            for st in stmts:
+                if isinstance(st, ast.If):
+                    scan(st.body, (cond + " and " if cond else "") + ast.unparse(st.test))
+                    scan(st.orelse, (cond + " and " if cond else "") + "not (%s)" % ast.unparse(st.test))
+                elif isinstance(st, ast.Assign) and len(st.targets) == 1 and isinstance(st.targets[0], ast.Subscript) and \
+                        ast.unparse(st.targets[0].value) == svar[0] and isinstance(st.targets[0].slice, ast.Constant):
+                    if not (isinstance(st.value, ast.Constant) and st.value.value is None):
+                        raise Unsupported("Handler.__getstate__ stores something other than None: " + ast.unparse(st))
+                    blanked.append((st.targets[0].slice.value, cond))
+        scan(gs.body, "")
+        fresh = []
+
+        def scan2(stmts, cond):
+            for st in stmts:
+                if isinstance(st, ast.If):
+                    scan2(st.body, (cond + " and " if cond else "") + ast.unparse(st.test))
+                    scan2(st.orelse, (cond + " and " if cond else "") + "not (%s)" % ast.unparse(st.test))
+                elif isinstance(st, ast.Assign) and len(st.targets) == 1 and isinstance(st.targets[0], ast.Attribute) and \
+                        ast.unparse(st.targets[0].value) == "self":
+                    fresh.append((st.targets[0].attr, ast.unparse(st.value), cond))
+        scan2(ss.body, "")
+        upd = [st for st in ss.body if isinstance(st, ast.Expr) and ast.unparse(st.value).startswith("self.__dict__.update(")]
+        if len(upd) != 1 or ss.body[0] is not upd[0]:
+            raise Unsupported("Handler.__setstate__ does not start with self.__dict__.update(state)")
+        body += "/-- attributes `Handler.__getstate__` blanks (attribute, condition) and `__setstate__` re-creates (attribute, value, condition) -/\n"
+        body += "def pickleBlanked : List (String × String) := [%s]\n" % ", ".join(
+            "(%s, %s)" % (lean_str(a), lean_str(c)) for a, c in blanked)
+        body += "def pickleFresh : List (String × String × String) := [%s]\n\n" % ", ".join(
+            "(%s, %s, %s)" % (lean_str(a), lean_str(v), lean_str(c)) for a, v, c in fresh)
+        # Logger.complete(): for each handler, complete_queue() (barrier of the enqueue worker) comes BEFORE
+        # tasks_to_complete() (snapshot of the coroutine-sink tasks), both under the core lock (Queue/EnqAsync.lean)
+        ltree, _ = parse_module("_logger.py")
+        lc = find_func(ltree, "complete", cls="Logger")
+
+        def calls(node, attr):
+            return [n for n in ast.walk(node) if isinstance(n, ast.Call) and isinstance(n.func, ast.Attribute) and n.func.attr == attr]
+        fors = [n for n in ast.walk(lc) if isinstance(n, ast.For) and calls(n, "complete_queue") and calls(n, "tasks_to_complete")]
+        if len(fors) != 1 or len(calls(lc, "complete_queue")) != 1 or len(calls(lc, "tasks_to_complete")) != 1:
+            raise Unsupported("Logger.complete: no single loop calling complete_queue() and tasks_to_complete() once each")
+        tgt = ast.unparse(fors[0].target)
+        iq = [i for i, st in enumerate(fors[0].body) if calls(st, "complete_queue")][0]
+        it = [i for i, st in enumerate(fors[0].body) if calls(st, "tasks_to_complete")][0]
+        same_handler = (ast.unparse(calls(lc, "complete_queue")[0].func.value) == tgt and
+                        ast.unparse(calls(lc, "tasks_to_complete")[0].func.value) == tgt)
+        straight = not any(isinstance(n, (ast.Continue, ast.Break, ast.Return, ast.Raise)) for n in ast.walk(fors[0]))
+        cw = [n for n in ast.walk(lc) if isinstance(n, ast.With) and any(n2 is fors[0] for n2 in ast.walk(n)) and
+              any(ast.unparse(i.context_expr).endswith("core.lock") or ast.unparse(i.context_expr).endswith("_core.lock")
+                  for i in n.items)]
+        body += "/-- `Logger.complete`: per handler `complete_queue()` strictly before `tasks_to_complete()`, under the core lock -/\n"
+        body += "def completeQueueBeforeTasks : Bool := %s\n\n" % ("true" if iq < it and same_handler and straight and cw else "false")
         # the worker's error report must not be able to kill the worker: everything ErrorInterceptor.print does with
         # sys.stderr (writes, flushes, traceback.print_exception onto it) sits inside the try whose handler swallows
         # OSError (a closed pipe, a full disk)
@@ -179,4 +348,4 @@ def generate():
     except (Unsupported, SyntaxError, KeyError, AttributeError, IndexError) as e:
         errors.append("%s: %s" % (type(e).__name__, e))
     body += "\nend Queue.ShapeGen\n"
-    return emit("QueueShape", body, ["loguru/_handler.py", "loguru/_recattrs.py", "loguru/__init__.py", "loguru/_simple_sinks.py", "loguru/_error_interceptor.py"], errors)
+    return emit("QueueShape", body, ["loguru/_handler.py", "loguru/_recattrs.py", "loguru/__init__.py", "loguru/_simple_sinks.py", "loguru/_error_interceptor.py", "loguru/_logger.py"], errors)
